@@ -490,6 +490,77 @@ def run_interleaved(chk, n, strata):
             strata[label.replace("-", "_")] = len(cases)
 
 
+# ----------------------------------------------------------------------------- stores that repeat a grouping line
+def _dup_variant():
+    def sc(kind, rows, lf, ops, obs, impl):
+        return spec_check_blocks(kind, rows, lf, ops, obs, impl)
+    sc.case_extra = dict(layout="blocks", model_compared=True)
+    return sc
+
+
+def repeated_line_cases(kind, rng, n):
+    """the store holds some role-assignment line twice (or three times) - the file adapter and load_policy_line take the
+    lines as they are -, then SINGLE-rule management calls (remove_grouping_policy / delete_role_for_user of a stored
+    assignment, most of them aimed at a repeated one; a few single adds of g and p rules), with the whole query block
+    before the first and after every call: while a copy of the assignment is stored (get_grouping_policy lists it) the
+    user holds the role, once the last copy is gone nobody does - in every block the API agrees with the stored
+    assignments and with enforce"""
+    for _ in range(n):
+        gen = mgmt.Gen(rng, kind, W_HIST)
+        rows = gen.rows(rng.randint(2, 8))
+        if not any(pt == 1 for pt, _ in rows):
+            rows.append((1, gen.uni.g_rule(rng)))
+        if not any(pt == 0 for pt, _ in rows):
+            rows.append((0, gen.uni.p_rule(rng)))
+        gs = [r for pt, r in rows if pt == 1]
+        reps = rng.sample(gs, min(len(gs), rng.choice([1, 1, 2])))
+        for r in reps:
+            for _ in range(rng.choice([1, 1, 1, 2])):
+                rows.insert(rng.randrange(len(rows) + 1), (1, list(r)))
+        stored = [list(r) for pt, r in rows if pt == 1]
+        calls = []
+        for _ in range(rng.randint(2, 5)):
+            x = rng.random()
+            if x < 0.6 and stored:
+                r = list(rng.choice(reps)) if (rng.random() < 0.7 and any(q in stored for q in reps)) else list(rng.choice(stored))
+                if r in stored:
+                    stored.remove(r)
+                calls.append((17, r[0], r[1]) if (not kind.dom and rng.random() < 0.5) else (3, 1, r))
+            elif x < 0.75:
+                r = list(rng.choice(gs)) if rng.random() < 0.6 else gen.uni.g_rule(rng)
+                if r not in stored:
+                    stored.append(r)
+                if rng.random() < 0.5:
+                    calls.append((19, r[0], r[1], r[2]) if kind.dom else (16, r[0], r[1]))
+                else:
+                    calls.append((1, 1, r))
+            elif x < 0.9:
+                calls.append((rng.choice([1, 3]), 0, gen.rule(0)))
+            else:
+                calls.append((3, 1, gen.uni.g_rule(rng)))          # an assignment that is (probably) not stored
+        mentioned = list(rows) + [(1, [c[1], c[2]] + ([c[3]] if kind.dom else [])) for c in calls if c[0] in (16, 19)] + \
+            [(c[1], list(c[2])) for c in calls if c[0] == 1]
+        block = query_ops(kind, mentioned)
+        ops = list(block) if rng.random() < 0.6 else []
+        for c in calls:
+            ops += [c] + block
+        yield (rows, True, ops)
+
+
+def run_repeated_lines(chk, n, strata):
+    for kn in ("rbac", "dom"):
+        if _hangs[0]:
+            return
+        kind = mgmt.KINDS[kn]
+        cases = list(repeated_line_cases(kind, chk.rng, n))
+        for k in range(0, len(cases), 100):         # in chunks: run_cases keeps every enforcer of a call alive
+            if _hangs[0]:
+                break
+            mgmt.run_cases(chk, kind, cases[k:k + 100], _dup_variant(), label=f"repeated-g-lines-{kn}", key_fn=key_fn,
+                           impl_kwargs=IMPL_KW)
+        strata[f"repeated_g_lines_{kn}"] = len(cases)
+
+
 def run(chk, n_random, max_g, max_p, cap, n_deep):
     rng = chk.rng
     strata = chk.extra.setdefault("strata", {})
@@ -500,6 +571,7 @@ def run(chk, n_random, max_g, max_p, cap, n_deep):
         run_stratum(chk, kind, cases, f"after-history-{kn}")
         strata[f"after_history_{kn}"] = len(cases)
     run_interleaved(chk, max(60, n_random // 2), strata)
+    run_repeated_lines(chk, max(40, n_random // 3), strata)
     for kn in ("rbac", "dom"):
         if _hangs[0]:
             return False
@@ -542,7 +614,9 @@ def main():
                 f"over 4 subjects x 2 objects x 2 actions [x 2 domains]; non-trivial = the policy has at least one role link; "
                 f"distinct by (kind, policy); (5) the query block after management histories, and INTERLEAVED with them: "
                 f"the whole block after each of 2..4 segments of a history (incl. steps where the store is edited out of band "
-                f"and reloaded, accepted or refused), every block checked against the policy in force at that block")
+                f"and reloaded, accepted or refused), every block checked against the policy in force at that block; "
+                f"(6) stores that repeat a role-assignment line, then single-rule calls (removal of a stored assignment, "
+                f"single adds) with the block after every call")
     chk.assumptions = ["the enforce<->implicit-permission clause is only demanded where the hierarchy is within the depth bound "
                        "(everything reachable from the user is reachable in < 10 assignments; computed independently per case); "
                        "the other clauses are demanded everywhere",
